@@ -84,4 +84,47 @@ def levels {α σ : Type} (f : σ → α → Bool × σ) (s : σ) (forest : List
   let r := filterS f s forest
   verdicts f s forest :: levelsFrom f r.1 r.2
 
+/-! ## Reading the trace -/
+
+/-- the entries with verdict "kept", in order -/
+def keptOf {α : Type} (l : List (α × Bool)) : List α := (l.filter (·.2)).map (·.1)
+
+/-- the considered nodes in the order they are considered: level by level (nearest first), declaration order inside a
+level -/
+def considered {α σ : Type} (f : σ → α → Bool × σ) (s : σ) (forest : List (Tree α)) : List (α × Bool) :=
+  (levels f s forest).flatten
+
+/-- one left-to-right pass of a stateful predicate over plain data -/
+def verdictsL {α σ : Type} (f : σ → α → Bool × σ) : σ → List α → List (α × Bool)
+  | _, [] => []
+  | s, a :: as => (a, (f s a).1) :: verdictsL f (f s a).2 as
+
+/-- the "first seen" predicate of nearest-wins mediation: keep a node iff its id has not been seen before -/
+def firstSeen {α ι : Type} [DecidableEq ι] (idOf : α → ι) (seen : List ι) (a : α) : Bool × List ι :=
+  (!seen.contains (idOf a), idOf a :: seen)
+
+/-- `out` is obtained from `forest` by deleting whole subtrees (siblings keep their order, a kept node keeps its
+ancestors): the shape of every mediation result -/
+inductive Pruned {α : Type} : List (Tree α) → List (Tree α) → Prop
+  | nil : Pruned [] []
+  | drop {t : Tree α} {ts us : List (Tree α)} : Pruned ts us → Pruned (t :: ts) us
+  | keep {d : α} {cs ds ts us : List (Tree α)} :
+      Pruned cs ds → Pruned ts us → Pruned (Tree.node d cs :: ts) (Tree.node d ds :: us)
+
+/-- breadth-first order, written level by level: all roots, then all their children, then all grandchildren, ... -/
+def levelOrder {α : Type} (level : List (Tree α)) : List α :=
+  match level with
+  | [] => []
+  | t :: ts => (t :: ts).map Tree.data ++ levelOrder ((t :: ts).flatMap Tree.children)
+termination_by sizeList level
+decreasing_by
+  have h2 : ∀ l : List (Tree α), sizeList (l.flatMap Tree.children) + l.length ≤ sizeList l := by
+    intro l
+    induction l with
+    | nil => simp [Tree.sizeList]
+    | cons a l ih => simp only [List.flatMap_cons, sizeList_append, Tree.sizeList, size_eq, List.length_cons]; omega
+  have := h2 (t :: ts)
+  simp only [List.length_cons] at this
+  omega
+
 end Maven
